@@ -292,8 +292,23 @@ KEPT_FOR_EFFECT = [
 ]
 
 
+JUMPS_BESIDE_DEAD_BRANCHES = [
+    # a break / continue in the branch that *is* taken of an if whose test is a known constant, followed by a return: the code after the loop is reached
+    ("break in the elif of if False", ["for x in range(2):", "    if False:", "        break", "    elif not c1:", "        break", "    return t(1)", "t(2)"]),
+    ("continue in the elif of if 0", ["for x in range(2):", "    if 0:", "        pass", "    elif c1:", "        continue", "    return t(1)", "t(2)"]),
+    ("break in the else of if 0", ["while True:", "    if 0:", "        pass", "    else:", "        break", "    return t(1)", "t(2)"]),
+    ("break in the else of if None in while c", ["while c1:", "    if None:", "        t(3)", "    else:", "        break", "    return t(1)", "t(2)"]),
+    ("continue in a nested elif chain", ["for x in [1, 2]:", "    if '':", "        t(3)", "    elif c1:", "        t(4)", "    elif c2:", "        continue", "    return t(1)", "t(2)"]),
+    ("break in the body of if True, elif dead", ["for x in [1, 2]:", "    if True:", "        if c1:", "            break", "    elif c2:", "        t(3)", "    return t(1)", "t(2)"]),
+    ("break under else of a false if in a with", ["for x in [1, 2]:", "    with cm(5):", "        if []:", "            t(3)", "        else:", "            if c1:", "                break", "    return t(1)", "t(2)"]),
+]
+
+
 def pointless_shapes():
     shapes = []
+    for label, lines in JUMPS_BESIDE_DEAD_BRANCHES:
+        g = Gen()
+        shapes.append((f"jump beside a dead branch: {label}", lines + [g.probe(), "return 'end'"]))
     for label, lines in KEPT_FOR_EFFECT:
         g = Gen()
         shapes.append((f"kept for effect: {label}", lines + [g.probe(), "return 'end'"]))
